@@ -69,6 +69,12 @@ pub fn run_c14(a: &Args) {
         st.evaluations += 1;
         match tread(b) { Some(Some(t)) => if t.code() != *c { st.fail(format!("[C14] the wire form of {c} decodes to {}", t.code()), hex(&b)); }, Some(None) => st.fail(format!("[C14] the wire form of configuration {c} (its short code NUL-padded) does not decode"), hex(&b)), None => st.fail("[C14] Track decoding panics".into(), hex(&b)) }
     }
+    // distinct configurations are distinct VALUES: equality tells all of them apart (a host list or statistics keyed by track)
+    {
+        let all: Vec<(String, Track)> = crate::gen::tracks::TRACK_CODES.iter().filter_map(|c| { let mut v = c.as_bytes().to_vec(); v.resize(6, 0); tread([v[0], v[1], v[2], v[3], v[4], v[5]]).flatten().map(|t| (c.to_string(), t)) }).collect();
+        st.evaluations += (all.len() * all.len()) as u64;
+        'eq: for (i, (ci, ti)) in all.iter().enumerate() { for (j, (cj, tj)) in all.iter().enumerate() { if (i == j) != (ti == tj) { st.fail(format!("[C14] configurations {ci} and {cj} compare {}", if ti == tj { "equal" } else { "unequal" }), format!("treq {ci} {cj}")); break 'eq; } } }
+    }
     // the same table where the track travels: every Track[6] field of every packet kind (IS_STA, IS_RST, the relay host list
     // elements): a field holding the NUL-padded short code of a configuration decodes and re-encodes identically; every other
     // value - zeros, lower case, a known code with bytes after its NUL, a near miss - makes the packet a decode error
@@ -352,6 +358,21 @@ pub fn run_c15(a: &Args) {
         let fits = ms / scale <= u32::MAX as u128;
         match encode_p(true, &insim::Packet::Small(p)) { Enc::Ok(b) => { let w = u32::from_le_bytes([b[4], b[5], b[6], b[7]]) as u128; if !fits || w != ms / scale { st.fail(format!("[C15] Small sub-type {subt} duration {ms} ms encoded as {w}"), format!("small {subt} {ms}")); } }, Enc::Err => if fits { st.fail(format!("[C15] Small duration {ms} ms refused"), format!("small {subt} {ms}")); }, Enc::Panic => st.fail(format!("[C15] Small duration {ms} ms panics"), format!("small {subt} {ms}")) }
     }
+    // the same rule through the builder: an IS_ISI interval beyond the 16-bit millisecond field is refused when the handshake packet is
+    // encoded - never sent as a different interval
+    for ms in [0u64, 1, 999, 65_534, 65_535, 65_536, 65_537, 70_000, 131_071, 3_600_000, 4_294_967_296] { for extra_ns in [0u32, 1, 999_999] {
+        st.evaluations += 1;
+        let d = std::time::Duration::from_millis(ms) + std::time::Duration::from_nanos(extra_ns as u64);
+        let id = format!("builderinterval {ms} {extra_ns}");
+        match crate::common::guard(|| insim::builder::Builder::new().isi_interval(d).isi()) {
+            None => st.fail(format!("[C15] Builder::isi panics for an interval of {d:?}"), id),
+            Some(isi) => match encode_p(true, &insim::Packet::Isi(isi)) {
+                Enc::Ok(b) => { let w = u16::from_le_bytes([b[10], b[11]]) as u64; if ms > 65_535 || w != ms { st.fail(format!("[C15] an IS_ISI interval of {d:?} set through the builder is sent as {w} ms"), id); } },
+                Enc::Err => if ms <= 65_535 { st.fail(format!("[C15] an IS_ISI interval of {d:?} set through the builder is refused"), id); },
+                Enc::Panic => st.fail(format!("[C15] an IS_ISI interval of {d:?} set through the builder makes the encoder panic"), id),
+            },
+        }
+    } }
     st.rule = "real conversions: all 256 race-length bytes both ways, lap/hour counts 0..1300 and far beyond, all 65536 values of a 10 ms and a 1 ms 16-bit time field through real packets (decode, re-encode, and encode with a sub-resolution remainder), boundary-biased 32-bit values through Small (hand-written) and Lap, out-of-range durations on the encode side; distinct values counted".into();
     st.sample("rlenc 2 67 -> 0 (practice), rlenc 1 199 -> 109 (190 laps)".into());
     out.finish(&st);
